@@ -34,6 +34,10 @@ inductive Err where
   | badValue            -- `from_micheline_value` rejects the expression
   | keyError            -- `path_to_key[path]` on a path that has no key
   | unrecognised        -- the translator did not recognise the source
+  | typeError           -- `TypeError` of `ParameterSection.from_python_object` (not a call / not a sum type / no named branch)
+  | pyAssert            -- `AssertionError` of `OrType.from_python_object` (a string for a non-enum, an object of no accepted shape)
+  | rejectedType        -- `Micheline.match` refuses the type expression (`parse_name`: several `%` / several `:` annotations on one
+                        -- node; `create_type`: a `%field` annotation on the argument of `option` / `list`)
   deriving DecidableEq, Repr
 
 /-- configuration read from the source -/
